@@ -41,10 +41,13 @@ impl MaybeDynSized for CommandLineTag {
     type Header = TagHeader;
     #[verifier::external_body]
     const BASE_SIZE: usize = COMMANDLINETAG_BASE_SIZE;
-//@extract multiboot2/src/command_line.rs :: impl MaybeDynSized for CommandLineTag :: fn dst_len
-//@  novis
-//@  rewrite /Self::BASE_SIZE/ => /COMMANDLINETAG_BASE_SIZE/ x*
-//@  prologue proof { assert(size_of::<TagHeader>() == 8 && size_of::<MemoryArea>() == 24); }
+//@extractall multiboot2/src/command_line.rs :: impl MaybeDynSized for CommandLineTag
+//@  const BASE_SIZE: skip
+//@  type Header: skip
+//@  fn *: rules R2
+//@  fn dst_len: novis
+//@  fn dst_len: rewrite /Self::BASE_SIZE/ => /COMMANDLINETAG_BASE_SIZE/ x*
+//@  fn dst_len: prologue proof { assert(size_of::<TagHeader>() == 8 && size_of::<MemoryArea>() == 24); }
 //@end
 }
 
@@ -69,10 +72,13 @@ impl MaybeDynSized for BootLoaderNameTag {
     type Header = TagHeader;
     #[verifier::external_body]
     const BASE_SIZE: usize = BOOTLOADERNAMETAG_BASE_SIZE;
-//@extract multiboot2/src/boot_loader_name.rs :: impl MaybeDynSized for BootLoaderNameTag :: fn dst_len
-//@  novis
-//@  rewrite /Self::BASE_SIZE/ => /BOOTLOADERNAMETAG_BASE_SIZE/ x*
-//@  prologue proof { assert(size_of::<TagHeader>() == 8 && size_of::<MemoryArea>() == 24); }
+//@extractall multiboot2/src/boot_loader_name.rs :: impl MaybeDynSized for BootLoaderNameTag
+//@  const BASE_SIZE: skip
+//@  type Header: skip
+//@  fn *: rules R2
+//@  fn dst_len: novis
+//@  fn dst_len: rewrite /Self::BASE_SIZE/ => /BOOTLOADERNAMETAG_BASE_SIZE/ x*
+//@  fn dst_len: prologue proof { assert(size_of::<TagHeader>() == 8 && size_of::<MemoryArea>() == 24); }
 //@end
 }
 
@@ -97,10 +103,13 @@ impl MaybeDynSized for ModuleTag {
     type Header = TagHeader;
     #[verifier::external_body]
     const BASE_SIZE: usize = MODULETAG_BASE_SIZE;
-//@extract multiboot2/src/module.rs :: impl MaybeDynSized for ModuleTag :: fn dst_len
-//@  novis
-//@  rewrite /Self::BASE_SIZE/ => /MODULETAG_BASE_SIZE/ x*
-//@  prologue proof { assert(size_of::<TagHeader>() == 8 && size_of::<MemoryArea>() == 24); }
+//@extractall multiboot2/src/module.rs :: impl MaybeDynSized for ModuleTag
+//@  const BASE_SIZE: skip
+//@  type Header: skip
+//@  fn *: rules R2
+//@  fn dst_len: novis
+//@  fn dst_len: rewrite /Self::BASE_SIZE/ => /MODULETAG_BASE_SIZE/ x*
+//@  fn dst_len: prologue proof { assert(size_of::<TagHeader>() == 8 && size_of::<MemoryArea>() == 24); }
 //@end
 }
 
@@ -125,10 +134,13 @@ impl MaybeDynSized for MemoryMapTag {
     type Header = TagHeader;
     #[verifier::external_body]
     const BASE_SIZE: usize = MEMORYMAPTAG_BASE_SIZE;
-//@extract multiboot2/src/memory_map.rs :: impl MaybeDynSized for MemoryMapTag :: fn dst_len
-//@  novis
-//@  rewrite /Self::BASE_SIZE/ => /MEMORYMAPTAG_BASE_SIZE/ x*
-//@  prologue proof { assert(size_of::<TagHeader>() == 8 && size_of::<MemoryArea>() == 24); }
+//@extractall multiboot2/src/memory_map.rs :: impl MaybeDynSized for MemoryMapTag
+//@  const BASE_SIZE: skip
+//@  type Header: skip
+//@  fn *: rules R2
+//@  fn dst_len: novis
+//@  fn dst_len: rewrite /Self::BASE_SIZE/ => /MEMORYMAPTAG_BASE_SIZE/ x*
+//@  fn dst_len: prologue proof { assert(size_of::<TagHeader>() == 8 && size_of::<MemoryArea>() == 24); }
 //@end
 }
 
@@ -153,10 +165,13 @@ impl MaybeDynSized for EFIMemoryMapTag {
     type Header = TagHeader;
     #[verifier::external_body]
     const BASE_SIZE: usize = EFIMEMORYMAPTAG_BASE_SIZE;
-//@extract multiboot2/src/memory_map.rs :: impl MaybeDynSized for EFIMemoryMapTag :: fn dst_len
-//@  novis
-//@  rewrite /Self::BASE_SIZE/ => /EFIMEMORYMAPTAG_BASE_SIZE/ x*
-//@  prologue proof { assert(size_of::<TagHeader>() == 8 && size_of::<MemoryArea>() == 24); }
+//@extractall multiboot2/src/memory_map.rs :: impl MaybeDynSized for EFIMemoryMapTag
+//@  const BASE_SIZE: skip
+//@  type Header: skip
+//@  fn *: rules R2
+//@  fn dst_len: novis
+//@  fn dst_len: rewrite /Self::BASE_SIZE/ => /EFIMEMORYMAPTAG_BASE_SIZE/ x*
+//@  fn dst_len: prologue proof { assert(size_of::<TagHeader>() == 8 && size_of::<MemoryArea>() == 24); }
 //@end
 }
 
@@ -181,10 +196,13 @@ impl MaybeDynSized for SmbiosTag {
     type Header = TagHeader;
     #[verifier::external_body]
     const BASE_SIZE: usize = SMBIOSTAG_BASE_SIZE;
-//@extract multiboot2/src/smbios.rs :: impl MaybeDynSized for SmbiosTag :: fn dst_len
-//@  novis
-//@  rewrite /Self::BASE_SIZE/ => /SMBIOSTAG_BASE_SIZE/ x*
-//@  prologue proof { assert(size_of::<TagHeader>() == 8 && size_of::<MemoryArea>() == 24); }
+//@extractall multiboot2/src/smbios.rs :: impl MaybeDynSized for SmbiosTag
+//@  const BASE_SIZE: skip
+//@  type Header: skip
+//@  fn *: rules R2
+//@  fn dst_len: novis
+//@  fn dst_len: rewrite /Self::BASE_SIZE/ => /SMBIOSTAG_BASE_SIZE/ x*
+//@  fn dst_len: prologue proof { assert(size_of::<TagHeader>() == 8 && size_of::<MemoryArea>() == 24); }
 //@end
 }
 
@@ -209,10 +227,13 @@ impl MaybeDynSized for ElfSectionsTag {
     type Header = TagHeader;
     #[verifier::external_body]
     const BASE_SIZE: usize = ELFSECTIONSTAG_BASE_SIZE;
-//@extract multiboot2/src/elf_sections.rs :: impl MaybeDynSized for ElfSectionsTag :: fn dst_len
-//@  novis
-//@  rewrite /Self::BASE_SIZE/ => /ELFSECTIONSTAG_BASE_SIZE/ x*
-//@  prologue proof { assert(size_of::<TagHeader>() == 8 && size_of::<MemoryArea>() == 24); }
+//@extractall multiboot2/src/elf_sections.rs :: impl MaybeDynSized for ElfSectionsTag
+//@  const BASE_SIZE: skip
+//@  type Header: skip
+//@  fn *: rules R2
+//@  fn dst_len: novis
+//@  fn dst_len: rewrite /Self::BASE_SIZE/ => /ELFSECTIONSTAG_BASE_SIZE/ x*
+//@  fn dst_len: prologue proof { assert(size_of::<TagHeader>() == 8 && size_of::<MemoryArea>() == 24); }
 //@end
 }
 
@@ -237,10 +258,13 @@ impl MaybeDynSized for NetworkTag {
     type Header = TagHeader;
     #[verifier::external_body]
     const BASE_SIZE: usize = NETWORKTAG_BASE_SIZE;
-//@extract multiboot2/src/network.rs :: impl MaybeDynSized for NetworkTag :: fn dst_len
-//@  novis
-//@  rewrite /Self::BASE_SIZE/ => /NETWORKTAG_BASE_SIZE/ x*
-//@  prologue proof { assert(size_of::<TagHeader>() == 8 && size_of::<MemoryArea>() == 24); }
+//@extractall multiboot2/src/network.rs :: impl MaybeDynSized for NetworkTag
+//@  const BASE_SIZE: skip
+//@  type Header: skip
+//@  fn *: rules R2
+//@  fn dst_len: novis
+//@  fn dst_len: rewrite /Self::BASE_SIZE/ => /NETWORKTAG_BASE_SIZE/ x*
+//@  fn dst_len: prologue proof { assert(size_of::<TagHeader>() == 8 && size_of::<MemoryArea>() == 24); }
 //@end
 }
 
@@ -265,10 +289,13 @@ impl MaybeDynSized for FramebufferTag {
     type Header = TagHeader;
     #[verifier::external_body]
     const BASE_SIZE: usize = FRAMEBUFFERTAG_BASE_SIZE;
-//@extract multiboot2/src/framebuffer.rs :: impl MaybeDynSized for FramebufferTag :: fn dst_len
-//@  novis
-//@  rewrite /Self::BASE_SIZE/ => /FRAMEBUFFERTAG_BASE_SIZE/ x*
-//@  prologue proof { assert(size_of::<TagHeader>() == 8 && size_of::<MemoryArea>() == 24); }
+//@extractall multiboot2/src/framebuffer.rs :: impl MaybeDynSized for FramebufferTag
+//@  const BASE_SIZE: skip
+//@  type Header: skip
+//@  fn *: rules R2
+//@  fn dst_len: novis
+//@  fn dst_len: rewrite /Self::BASE_SIZE/ => /FRAMEBUFFERTAG_BASE_SIZE/ x*
+//@  fn dst_len: prologue proof { assert(size_of::<TagHeader>() == 8 && size_of::<MemoryArea>() == 24); }
 //@end
 }
 
